@@ -171,7 +171,8 @@ package server
 //@   props C01
 //@   requires s != nil && params != nil
 //@   ensures [C01:open] smhas(s.documents, params.TextDocument.URI) && smget(s.documents, params.TextDocument.URI) == box(params.TextDocument.Text)
-//@   modifies s.documents
+//@   ensures [C01:no_stale_templates] !smhas(s.payeeTemplatesCache, params.TextDocument.URI)
+//@   modifies s.documents, s.payeeTemplatesCache
 
 //@ func (*Server).DidChange
 //@   props C01
@@ -180,9 +181,10 @@ package server
 //@   requires s.loader != nil && LCacheOK(s.loader)
 //@   ensures [C11:loader_coherent] LCacheOK(s.loader)
 //@   ensures [C11:changed_file_invalidated] old(smhas(s.documents, params.TextDocument.URI)) && typeis(old(smget(s.documents, params.TextDocument.URI)), string) && s.workspace != nil && uriPath(params.TextDocument.URI) != "" ==> !has(s.loader.cache, uriPath(params.TextDocument.URI))
+//@   ensures [C01:no_stale_templates] old(smhas(s.documents, params.TextDocument.URI)) && typeis(old(smget(s.documents, params.TextDocument.URI)), string) ==> !smhas(s.payeeTemplatesCache, params.TextDocument.URI)
 //@   ensures [C01:fold] old(smhas(s.documents, params.TextDocument.URI)) && typeis(old(smget(s.documents, params.TextDocument.URI)), string) ==> smhas(s.documents, params.TextDocument.URI) && smget(s.documents, params.TextDocument.URI) == box(docFold(as(old(smget(s.documents, params.TextDocument.URI)), string), params.ContentChanges, len(params.ContentChanges)))
 //@   ensures [C01:absent] !old(smhas(s.documents, params.TextDocument.URI)) ==> !smhas(s.documents, params.TextDocument.URI)
-//@   modifies s.documents, s.loader.cache[*]
+//@   modifies s.documents, s.loader.cache[*], s.payeeTemplatesCache
 //@   modifies s.workspace.cachedFormats, s.workspace.cachedCommodities, s.workspace.cachedAccounts, s.workspace.resolved, s.workspace.resolved.Primary, s.workspace.resolved.PrimaryPath, s.workspace.resolved.FileOrder, s.workspace.resolved.Files[*], s.workspace.includeGraph[*], s.workspace.reverseGraph[*]
 //@   modifies s.workspace.index.accountCounts[*], s.workspace.index.payeeCounts[*], s.workspace.index.commodityCounts[*], s.workspace.index.tagCounts[*], s.workspace.index.dateCounts[*], s.workspace.index.payeeTemplates[*], s.workspace.index.fileIndexes[*], s.workspace.index.tagValueCounts[*], s.workspace.index.tagValueCounts[*][*], s.workspace.index.transactionsByKey[*]
 //@   modifies s.workspace.index.accounts, s.workspace.index.payees, s.workspace.index.commodities, s.workspace.index.tags, s.workspace.index.tagValues, s.workspace.index.dates
